@@ -18,17 +18,21 @@ def flagNarrow : Nat := 8
 def regSignatureOf (r : Reg) : Nat :=
   (match regSignature[r.rt]? with | some s => s.value | none => 0) ||| (r.et <<< 12) ||| ((if r.hasIdx then 1 else 0) <<< 15) ||| (r.idx <<< 16)
 
-/-- `match_wide_narrow` (fixes/C02-9.patch) -/
+/-- `match_wide_narrow` of fixes/C02-9.patch (a plain D register stands for `.1D`) -/
 def matchWideNarrow (w n : Reg) (pairwise : Bool) : Bool :=
   if !w.isVec || !n.isVec then false else
   if n.et == 0 then w.et == 0 && w.rt == n.rt + 1 else
+  if n.et > 4 then false else
   let wideElem := if n.et < 4 then n.et + 1 else 0
-  if n.et > 4 || w.et != wideElem then false else
+  let plainD := w.rt == rtVec64 && w.et == 0 && wideElem == 4
+  if w.et != wideElem && !plainD then false else
   if pairwise then w.rt == n.rt && wideElem != 0 else w.rt == rtVec128
 
-/-- `match_signature(o0, o1, inst_flags)` -/
+/-- `match_signature(o0, o1, inst_flags)`: in the original source long / narrow instructions are not validated ("TODO");
+the repaired source (fixes/C02-9.patch, detected by the translator) matches wide against narrow operand -/
 def matchSignature2 (o0 o1 : Reg) (flags : Nat) : Bool :=
   if flags &&& (flagLong ||| flagNarrow) == 0 then o0.sameSig o1 else
+  if srcMatchWideNarrow == 0 then true else
   let pw := flags &&& flagPair != 0
   if flags &&& flagLong != 0 then matchWideNarrow o0 o1 pw else matchWideNarrow o1 o0 pw
 
